@@ -1,5 +1,5 @@
 # executed by gen_manifest.py:  reg(pid, technique, level text, level note)
-EXPL = "generated-input search with an explicit oracle; assurance = the property held on every generated / enumerated case reported in the evidence file, nothing beyond"
+EXPL = "generated-input search with an explicit oracle (one case in ten under each of four process configurations, plus a reduced pass under python -O); assurance = the property held on every generated / enumerated case reported in the evidence file, nothing beyond"
 
 reg("C20",
     "model-based property testing over generated operation histories (Hypothesis), scripted RNG for draws",
@@ -16,8 +16,9 @@ reg("C01",
 
 reg("C02",
     "property-based testing (Hypothesis); oracle = callback journal vs. the three columns grouped by motif id",
-    "Column lengths, pair-typed edges, contiguous unique motif ids equal to the journalled callback returns, and "
-    "names per edge are checked on every generated case incl. bare-edge, two-edge and k-edge motifs. " + EXPL,
+    "Column lengths, pair-typed edges, and -- as multisets per motif id, whatever the order or orientation of the rows -- "
+    "the rows and names of every id against one journalled callback return are checked on every generated case incl. "
+    "bare-edge, two-edge and k-edge motifs. " + EXPL,
     "bare-edge callbacks are paired with bare-string names (suite convention); network variant checked through edge attributes")
 
 reg("C04",
@@ -31,7 +32,9 @@ reg("C03",
     "exhaustive enumeration of the RNG decision tree (exact output distribution as Fractions) over an enumerated family of joint degree sequences plus Hypothesis-generated shapes; seeded chi-square for large sequences",
     "For every small joint degree sequence of the enumerated family and every generated shape under the leaf cap, the "
     "complete tree of integer draws of the generator is walked and the exact probability of every ordered stub "
-    "sequence is compared with the uniform law on the product of multiset permutations (all present, all equal). " + EXPL,
+    "sequence filling complete motifs is compared with the exact law of uniform stub matching (uniform on the multiset "
+    "permutations when the handshake condition holds: all present, all equal); an entropy bound on the scripted RNG "
+    "decides reachability on spaces too large to sample. " + EXPL,
     "exactness relies on the generators drawing only through the stdlib random instance's integer source; large "
     "sequences are only sampled (chi-square at p<1e-9)")
 
